@@ -461,12 +461,15 @@ class NodePattern:
         self.allow_other_inputs = allow_other_inputs
         self._check = check
         # In the common case, domain and op are constants, which can be used to optimize matching.
-        if isinstance(op, str) and isinstance(domain, StringConstantPattern):
+        # (NodePattern.clone passes the StringConstantPattern itself, so test self.op, not op.)
+        if isinstance(self.op, StringConstantPattern) and isinstance(
+            domain, StringConstantPattern
+        ):
             # TODO(rama): support overloaded operators.
             overload = ""
             self._op_identifier: ir.OperatorIdentifier | None = (
                 domain.value(),
-                op,
+                self.op.value(),
                 overload,
             )
         else:
